@@ -11,6 +11,9 @@ from .run import write_evidence, save_replay
 
 def _work(item):
     idx, spec = item
+    deadline = float(os.environ.get("VF_DEADLINE_TS", "0") or 0)
+    if deadline and time.time() > deadline:
+        return {"program": f"{spec['fam']} {spec['which']} [{spec['relation']}] {spec['op1']} || {spec['op2']}", "verdict": "not-explored (time budget)", "queries": 0, "solver_s": 0, "replays": 0, "events": 0, "witnesses": [], "spec": spec}
     fam = hlib.FAM[spec["fam"]]
     prog = conc.Prog(fam, spec["which"], spec["relation"], spec["op1"], spec["op2"], ctx=tuple(spec["ctx"]) if spec.get("ctx") else None)
     try:
@@ -35,6 +38,8 @@ def run(pid, tier, seed, specs, mod, fingerprint, emit=True):
     """specs: list of program dicts.  fingerprint(result) -> dict used to match
     known_findings.json for a violated program."""
     t0 = time.time()
+    if not os.environ.get("VF_DEADLINE_TS"):
+        os.environ["VF_DEADLINE_TS"] = str(t0 + float(os.environ.get("VF_BUDGET_S", "1200" if tier == "quick" else "2400")))
     F = findings.Findings()
     items = list(enumerate(specs))
     if seed:
